@@ -1722,8 +1722,10 @@ func EncodeRawValue(val interface{}, colType SQLValueType, maxLen int, nullable 
 	}
 
 	if convVal == nil {
+		// a dedicated length is used to denote NULL so that it can be
+		// distinguished from empty values (zero-length strings and blobs)
 		encv := make([]byte, EncLenLen)
-		binary.BigEndian.PutUint32(encv[:], uint32(0))
+		binary.BigEndian.PutUint32(encv[:], nullValueEncLen)
 		return encv, nil
 	}
 
@@ -1886,14 +1888,17 @@ func DecodeNullableValue(b []byte, colType SQLValueType) (TypedValue, int, error
 	return decodeValue(b, colType, true)
 }
 
+// nullValueEncLen is the length used by the nullable encoding to denote NULL
+const nullValueEncLen = math.MaxUint32
+
 func decodeValue(b []byte, colType SQLValueType, nullable bool) (TypedValue, int, error) {
+	if nullable && len(b) >= EncLenLen && binary.BigEndian.Uint32(b) == nullValueEncLen {
+		return &NullValue{t: colType}, EncLenLen, nil
+	}
+
 	vlen, voff, err := DecodeValueLength(b)
 	if err != nil {
 		return nil, 0, err
-	}
-
-	if vlen == 0 && nullable {
-		return &NullValue{t: colType}, voff, nil
 	}
 
 	switch colType {
